@@ -133,6 +133,7 @@ def run(ctx):
     shared.failed_cleanup_keeps_queue_order(ctx, '3')
     shared.no_log_handle_destroyed_in_cleanup(ctx, '3')   # also when a truncation fails: the logs not cleaned stay in front of the newer ones
     shared.torn_record_not_handed_over(ctx, '1')        # only complete records reach the stage that writes tables
+    flush_is_not_skipped_wrongly(ctx, '2s')
     # every table the applier may write to is msynced by the column flush that precedes log truncation: besides the current index,
     # the value tables and the current ref-count table these are the OLD index / ref-count tables still queued for re-indexing
     # (HashColumn::enact_plan writes into them for records planned before the growth, and replay does at open)
@@ -214,3 +215,68 @@ def run(ctx):
         ctx.ob('6c tablefile-msync', 'K1-must-pass', tf.path, 'TableFile::flush msyncs the whole mapping (flush, or flush_range(0, map.len()))', bool(sites), 'no msync of the whole mapping')
         if sites:
             lib.cond_guarded(ctx, '6d tablefile-msync-only-skipped-if-unmapped', tf, sites[0], 'msync skipped only when the file is not mapped', fields=['.TableFile.map'])
+
+
+def flush_is_not_skipped_wrongly(ctx, p):
+    """TableFile::flush is what makes table bytes durable before the logs that describe them are truncated. It syncs the mapping
+    whenever there is one. If it may SKIP the sync on the word of a flag ("nothing written since the last flush"), that flag has to
+    be right also after a failure: a sync that failed has made nothing durable, so its error edge puts the flag back - otherwise the
+    retry (the next cleanup round, or the shutdown path) skips the table and truncates the logs - and every function that writes
+    into the mapping raises the flag."""
+    F = ctx.F
+    b = ctx.body('file::TableFile::flush')
+    if not b:
+        return
+    M = lib.sites_reaching(b, ['re:memmap2::MmapMut::(flush|flush_range)$', 're:MmapMut::(flush|flush_range)$'])
+    ctx.ob(p + '0 flush-anchor', 'anchor', b.path, 'TableFile::flush msyncs the mapping', len(M) >= 1, str(M))
+    if not M:
+        return
+    nomap = lib.prune_option_field(b, '.TableFile.map', keep_some=True)
+    w = lib.ok_return_unreachable_avoiding(b, M, removed_edges=frozenset(nomap))
+    if w is None:
+        ctx.ob(p + ' existing-mapping-always-synced', 'K1-must-pass', b.path, 'every successful return of TableFile::flush has synced the mapping if there is one (no skip)', True, '')
+        return
+    # a skip: which atomic flag of the file decides it?
+    flags = set()
+    for bi in w:
+        t = b.term(bi)
+        if t['k'] == 'switch' and op_place(t['a']) is not None:
+            sl = backward_slice(b, [op_place(t['a'])])
+            for cb_, ct in sl.call_sites:
+                if call_matches(ct, lib.ATOMIC_RMW + ['re:Atomic.*::load$']):
+                    flags |= set(f for f in lib.receiver_fields(b, ct, 0) if f.startswith('.TableFile.') and f != '.TableFile.map')
+    if not flags:
+        ctx.ob(p + ' existing-mapping-always-synced', 'K1-must-pass', b.path, 'every successful return of TableFile::flush has synced the mapping if there is one, or the skip is decided by a flag of the file', False,
+               'success path without msync: ' + lib.short_path(b, w))
+        return
+    for fl in sorted(flags):
+        # (a) the error edge of the sync raises the flag again
+        bad = []
+        for m in M:
+            errt = lib.result_err_targets(b, m)
+            raise_sites = [bi for bi, t in b.calls() if bi in b.normal_blocks() and call_matches(t, lib.ATOMIC_STORE + lib.ATOMIC_RMW) and fl in lib.receiver_fields(b, t, 0)
+                           and len(t['a']) > 1 and lib.const_of(b, t['a'][1]) == 1]
+            for e in errt:
+                if b.find_path([e], b.return_blocks(), removed=set(raise_sites), sensitive=False) is not None:
+                    bad.append('the error edge of the sync at %s returns without raising %s again' % (b.loc(m), fl))
+            if not errt:
+                bad.append('no error edge found for the sync at %s' % b.loc(m))
+        ctx.ob(p + 'a skip-flag-restored-when-the-sync-fails %s' % fl.split('.')[-1], 'K1-must-pass', b.path,
+               'a flag that lets flush skip the sync is raised again on the error edge of a failed sync (a failed msync made nothing durable: the retry must not skip the file)', not bad, '; '.join(bad))
+        # (b) every writer of the mapping raises it
+        bad = []
+        for wb in [x for x in F.bodies.values() if x.path.startswith('file::TableFile::') and '{closure' not in x.path]:
+            cps = []
+            for bi, t in wb.calls():
+                if bi in wb.normal_blocks() and call_matches(t, ['re:copy_from_slice$', 're:ptr::copy(_nonoverlapping)?$', 're:ptr::write(_bytes)?$']) and t['a'] and op_place(t['a'][0]) is not None:
+                    # the destination is (a view of) the mapping, not the caller's buffer
+                    dst = backward_slice(wb, [op_place(t['a'][0])])
+                    if any(re.search(r'from_raw_parts_mut$|as_mut_ptr$|DerefMut', c) for c in dst.calls) or '.TableFile.map' in dst.fields:
+                        cps.append(bi)
+            if not cps:
+                continue
+            rs = [bi for bi, t in wb.calls() if bi in wb.normal_blocks() and call_matches(t, lib.ATOMIC_STORE + lib.ATOMIC_RMW) and fl in lib.receiver_fields(wb, t, 0)]
+            for c in cps:
+                if lib.ok_return_unreachable_avoiding(wb, rs, sources=[c]) is not None:
+                    bad.append('%s writes the mapping at %s without raising %s afterwards' % (wb.path, wb.loc(c), fl))
+        ctx.ob(p + 'b every-write-raises-the-skip-flag %s' % fl.split('.')[-1], 'K1-must-pass', 'file::TableFile', 'every function of TableFile that copies bytes into the mapping raises the flag after the copy', not bad, '; '.join(bad))
